@@ -28,6 +28,7 @@ def dispatch (line : String) : String :=
   | "c12" :: args => c12 args
   | "c12a" :: args => c12a args
   | "c13" :: args => c13 args
+  | "c13e" :: args => c13e args
   | "c07" :: args => c07 args
   | "c07u" :: args => c07u args
   | "c10" :: args => c10 args
